@@ -625,7 +625,19 @@ def c07 (ms : M) (e : Event) : List String :=
   let badDiscReset :=
     if cfg.resetOnDisconnect && stConnected prev.st && !stConnected e.after.st
        && (resets.isEmpty || e.after.S != 1 || e.after.T != 1) then ["C07.reset_on_disconnect_missing"] else []
+  -- a reset a received Logon asks for (its ResetSeqNumFlag, or ResetOnLogon) is agreed to only once the Logon got past the
+  -- validator and the application (FromAdmin): the store is not touched before that — a refused Logon leaves the history alone
+  let earlyReset := match e.op, inb with
+    | .msgIn _, some m =>
+      if kindOf m == "A" && !(cfg.resetOnDisconnect && disconnects) then   -- (a disconnect-time reset is not this Logon's)
+        let pre := e.items.takeWhile fun i => i != .store ["reset"]
+        if pre.length < e.items.length
+           && !(pre.any fun i => match i with | .fromAdmin "A" _ => true | .wire .. => true | .closed => true | .onLogout => true | _ => false)
+        then ["C07.reset_before_logon_verified"] else []
+      else []
+    | _, _ => []
   badReset ++ bad40 ++ badRtime ++ badEchoReset ++ badEcho ++ badHonour ++ badBack ++ badSeqReset ++ badS ++ badLogoutReset ++ badDiscReset
+  ++ earlyReset
 
 /-! ## C08: the shape of a connection -/
 
@@ -676,9 +688,13 @@ def c20 (ms : M) (e : Event) (hbAfter : Int) : List String :=
   let armed (ms' : Int) := e.items.contains (.armPeer ms')
   match e.op with
   | .timeout .needHeartbeat =>
-    if prev.st == "InSession" || prev.st == "Resend" then (if count "0" == 1 then [] else ["C20.heartbeat_not_sent"])
+    -- our own silence running out says nothing about the peer: the silence measured for the TestRequest / the dead-peer
+    -- disconnect must not start over (re-arming the peer timer here postpones the disconnect of a dead peer)
+    (if e.items.any (fun i => match i with | .armPeer _ => true | _ => false) then ["C20.peer_timer_rearmed_without_receive"] else [])
+    ++
+    (if prev.st == "InSession" || prev.st == "Resend" then (if count "0" == 1 then [] else ["C20.heartbeat_not_sent"])
     else if isPending prev.st then (if count "0" == 0 then [] else ["C20.heartbeat_while_test_request_pending"])
-    else []
+    else [])
   | .timeout .peerTimeout =>
     if prev.st == "InSession" || prev.st == "Resend" then
       (if count "1" == 1 then [] else ["C20.test_request_not_sent"])
